@@ -94,7 +94,8 @@ def _check_parallel(
         }
         for output_name, ex in executor.items():
             names = uses_default_executor if output_name == "" else at_least_tuple(output_name)
-            _check_parallel(parallel, {n: store[n] for n in names}, ex)
+            # An executor can be for an output that is not computed in this run (`output_names`)
+            _check_parallel(parallel, {n: store[n] for n in names if n in store}, ex)
         return
 
 
